@@ -9,6 +9,8 @@ import (
 	"strconv"
 	"strings"
 
+	"unicode/utf8"
+
 	"github.com/goccmack/gocc/internal/util"
 	"github.com/goccmack/gocc/internal/util/md"
 )
@@ -38,16 +40,35 @@ func cmdLitConv(in *bufio.Reader, out *bufio.Writer, _ []string) {
 		}()
 		out.WriteByte(' ')
 		// Go's own reading of the literal
-		s := string(lit)
-		if v, err := strconv.Unquote(s); err == nil && len(s) >= 2 && s[0] == '\'' {
-			r := []rune(v)
-			if len(r) == 1 {
-				fmt.Fprintf(out, "%d\n", r[0])
-				continue
-			}
+		if v, ok := goRuneLit(lit); ok {
+			fmt.Fprintf(out, "%d\n", v)
+		} else {
+			fmt.Fprintf(out, "INVALID\n")
 		}
-		fmt.Fprintf(out, "INVALID\n")
 	}
+}
+
+// goRuneLit returns the value Go assigns to a rune literal (strconv.UnquoteChar
+// plus the rules strconv.Unquote applies to single-quoted literals).
+func goRuneLit(lit []byte) (rune, bool) {
+	s := string(lit)
+	if len(s) < 3 || s[0] != '\'' || s[len(s)-1] != '\'' {
+		return 0, false
+	}
+	body := s[1 : len(s)-1]
+	if strings.ContainsRune(body, '\n') {
+		return 0, false
+	}
+	if body[0] >= utf8.RuneSelf {
+		if r, size := utf8.DecodeRuneInString(body); r == utf8.RuneError && size == 1 {
+			return 0, false
+		}
+	}
+	r, _, tail, err := strconv.UnquoteChar(body, '\'')
+	if err != nil || tail != "" {
+		return 0, false
+	}
+	return r, true
 }
 
 // cmdMd: per hex-encoded UTF-8 document prints loadMd's output (hex, UTF-8).
